@@ -18,6 +18,7 @@ import (
 	"fmt"
 	"math/big"
 	"os"
+	"runtime"
 	"sort"
 	"strconv"
 	"strings"
@@ -168,21 +169,47 @@ func c11ValidatorID(pk phase0.BLSPubKey) int {
 	return 99
 }
 
-// c11Account is an account with a real BLS key.  onName is called from Name(), which the version-2
-// configuration calls while ProposerConfig holds the configuration read lock.
+// c11Account is an account with a real BLS key.  onName is called from Name() and PublicKey() when they
+// are called from inside the execution configuration's own resolution (services/blockrelay/v1 or v2 on the
+// stack): the version-2 configuration asks for the account's name while it works out a validator's
+// settings - on the current tree that is while ProposerConfig holds the configuration read lock.  Calls
+// from anywhere else (a caller working out a key of its own, say) are answered at once, so that an
+// operation is held MID-RESOLUTION and nowhere else.
 type c11Account struct {
 	e2wtypes.Account // ID() is never called on these paths (google/uuid is only an indirect requirement)
 	v                int
 	onName           func()
 }
 
+// c11InResolution tells whether the caller's caller runs inside an execution configuration's resolution.
+func c11InResolution() bool {
+	var pcs [48]uintptr
+	n := runtime.Callers(3, pcs[:])
+	frames := runtime.CallersFrames(pcs[:n])
+	for {
+		fr, more := frames.Next()
+		if strings.Contains(fr.Function, "/services/blockrelay/v2.") || strings.Contains(fr.Function, "/services/blockrelay/v1.") {
+			return true
+		}
+		if !more {
+			return false
+		}
+	}
+}
+
 func (a *c11Account) Name() string {
-	if a.onName != nil {
+	if a.onName != nil && c11InResolution() {
 		a.onName()
 	}
 	return fmt.Sprintf("validator%d", a.v)
 }
-func (a *c11Account) PublicKey() e2types.PublicKey { return c11Keys[a.v].PublicKey() }
+
+func (a *c11Account) PublicKey() e2types.PublicKey {
+	if a.onName != nil && c11InResolution() {
+		a.onName()
+	}
+	return c11Keys[a.v].PublicKey()
+}
 func (a *c11Account) Sign(_ context.Context, data []byte) (e2types.Signature, error) {
 	return c11Keys[a.v].Sign(data), nil
 }
@@ -331,6 +358,28 @@ func (op *c11Op) pass(g string) {
 	<-ch
 }
 
+func (op *c11Op) isOpen(g string) bool {
+	c11GateMu.Lock()
+	defer c11GateMu.Unlock()
+	select {
+	case <-op.gates[g]:
+		return true
+	default:
+		return false
+	}
+}
+
+func (op *c11Op) isArrived(g string) bool {
+	c11GateMu.Lock()
+	defer c11GateMu.Unlock()
+	select {
+	case <-op.arrived[g]:
+		return true
+	default:
+		return false
+	}
+}
+
 func (op *c11Op) waitArrived(g string, d time.Duration) bool {
 	select {
 	case <-op.arrived[g]:
@@ -357,8 +406,9 @@ type c11Env struct {
 
 	mu sync.Mutex
 	// configuration source
-	srcOut string
-	srcDoc int
+	srcOut  string
+	srcDoc  int
+	rawDocs map[int][]byte // documents served as they are (service-level driver of C10), instead of the catalogue's
 	// validating accounts
 	accts         []int
 	acctsCalls    int
@@ -378,10 +428,26 @@ type c11Env struct {
 	// or node answers only after the scripted-failing ones of the same fan-out have answered (bounded) and a
 	// further short period, watching its context all the while; "batched" = as slow, and a relay receives
 	// its payload one registration at a time, with such a period before every batch
-	lat    string
-	fanout map[string]*c11Fanout
-	quiet  bool // no registration events (C12: the registration part is not in its trace)
-	quietOps  bool // no Source / Bid events (stress)
+	lat      string
+	fanout   map[string]*c11Fanout
+	quiet    bool // no registration events (C12: the registration part is not in its trace)
+	quietOps bool // no Source / Bid events (stress)
+	// "held" rounds (C11 overlap): the healthy relays keep the round's calls in flight until the driver opens
+	// the gate; meanwhile a forwarding call of the second lane (context value c11LaneKey = "f2") and a fetch run
+	gate        chan struct{}
+	gateArrived int
+	f2In        map[[3]int]*builderapiv1.SignedValidatorRegistration
+	f2RelayFail map[int]bool
+	// the instance was abandoned by the watchdog: nothing it still does is recorded
+	dead atomic.Bool
+}
+
+// c11LaneKey marks the context of a call with the lane it belongs to ("f2" = forwarding call that overlaps a round).
+type c11LaneKey struct{}
+
+func c11Lane(ctx context.Context) string {
+	l, _ := ctx.Value(c11LaneKey{}).(string)
+	return l
 }
 
 func c11NewEnv(t testing.TB, tr *verifsupport.Trace, sc int, docs []c11Doc) *c11Env {
@@ -398,6 +464,9 @@ func c11NewEnv(t testing.TB, tr *verifsupport.Trace, sc int, docs []c11Doc) *c11
 }
 
 func (e *c11Env) emit(ev verifsupport.Ev) {
+	if e.dead.Load() {
+		return
+	}
 	ev["sc"] = e.sc
 	e.tr.Emit(ev)
 }
@@ -414,20 +483,29 @@ func (m *c11Majordomo) Fetch(ctx context.Context, _ string) ([]byte, error) {
 		e.mu.Lock()
 		out, doc := e.srcOut, e.srcDoc
 		e.mu.Unlock()
-		return c11SourceBytes(e.docs, out, doc, variant)
+		return e.sourceBytes(out, doc, variant)
 	}
 	op.pass("src")
 	var data []byte
 	var err error
 	// the event is ordered with the answer: written under the trace lock when the source answers
 	e.tr.Locked(func() verifsupport.Ev {
-		data, err = c11SourceBytes(e.docs, op.out, op.doc, variant)
+		data, err = e.sourceBytes(op.out, op.doc, variant)
 		if e.quietOps {
 			return nil
 		}
 		return verifsupport.Ev{"sc": e.sc, "ev": "Source", "op": op.id, "out": op.out, "doc": op.doc}
 	})
 	return data, err
+}
+
+func (e *c11Env) sourceBytes(out string, doc int, variant int64) ([]byte, error) {
+	if out == "good" && e.rawDocs != nil {
+		if raw, ok := e.rawDocs[doc]; ok {
+			return raw, nil
+		}
+	}
+	return c11SourceBytes(e.docs, out, doc, variant)
 }
 
 // ---- accounts ----
@@ -698,12 +776,23 @@ func (r *c11Relay) SubmitValidatorRegistrations(ctx context.Context, opts *build
 	if e == nil {
 		return errors.New("no environment")
 	}
+	lane2 := c11Lane(ctx) == "f2"
 	e.mu.Lock()
 	fail := e.relayFail[r.id]
 	anyFailing := len(e.relayFail) > 0
 	mode := e.mode
 	quiet := e.quiet
 	lat := e.lat
+	fwdIn := e.fwdIn
+	gate := e.gate
+	prefix := ""
+	if lane2 {
+		// the overlapping forwarding call: its own script, no latency, never held
+		fail, anyFailing, mode, lat, fwdIn, gate, prefix = e.f2RelayFail[r.id], len(e.f2RelayFail) > 0, "fwd", "none", e.f2In, nil, "F2"
+	}
+	if lat != "held" {
+		gate = nil
+	}
 	e.mu.Unlock()
 	regs := make([]c11RegEv, 0, len(opts.Registrations))
 	for _, reg := range opts.Registrations {
@@ -713,7 +802,7 @@ func (r *c11Relay) SubmitValidatorRegistrations(ctx context.Context, opts *build
 			ev.V, ev.Fee, ev.Gas = c11ValidatorID(msg.Pubkey), c11FeeID(msg.FeeRecipient), c11GasID(msg.GasLimit)
 			if mode == "fwd" {
 				e.mu.Lock()
-				in := e.fwdIn[[3]int{ev.V, ev.Fee, ev.Gas}]
+				in := fwdIn[[3]int{ev.V, ev.Fee, ev.Gas}]
 				e.mu.Unlock()
 				ev.SigOK = in != nil && in.Signature == reg.V1.Signature && in.Message.Timestamp.Equal(msg.Timestamp)
 			} else if root, err := msg.HashTreeRoot(); err == nil {
@@ -726,6 +815,7 @@ func (r *c11Relay) SubmitValidatorRegistrations(ctx context.Context, opts *build
 	emit := func(ev verifsupport.Ev) {
 		if !quiet {
 			ev["r"] = r.id
+			ev["ev"] = prefix + ev["ev"].(string)
 			e.emit(ev)
 		}
 	}
@@ -738,6 +828,21 @@ func (r *c11Relay) SubmitValidatorRegistrations(ctx context.Context, opts *build
 		emit(verifsupport.Ev{"ev": "RelayFinish", "out": "err"})
 		e.failedNow("R")
 		return errors.New("scripted relay failure")
+	}
+	if gate != nil {
+		// a held round: the request stays on the wire until the driver lets the round go (or its context ends)
+		e.mu.Lock()
+		e.gateArrived++
+		e.acctsCond.Broadcast()
+		e.mu.Unlock()
+		select {
+		case <-gate:
+		case <-ctx.Done():
+		}
+		if err := ctx.Err(); err != nil {
+			emit(verifsupport.Ev{"ev": "RelayFinish", "out": "ctx"})
+			return err
+		}
 	}
 	// the payload travels in one piece, or one registration at a time
 	batches := [][]c11RegEv{regs}
